@@ -477,9 +477,9 @@ Section RequestProofs.
 
   (* ---------- completeness: sign, send, verify ---------- *)
   Hypothesis sig_complete : forall k m, verify (pub k) m (sign k m) = true.
-  Hypothesis wire_ok : forall s, sig_unwire (sig_wire s) = Some s.
-  Hypothesis wire_nonempty : forall s, sig_wire s <> [].
-  Hypothesis wire_b64 : forall s, b64_decode (b64_encode (sig_wire s)) = Some (sig_wire s).
+  Hypothesis wire_ok : forall k m, sig_unwire (sig_wire (sign k m)) = Some (sign k m).
+  Hypothesis wire_nonempty : forall k m, sig_wire (sign k m) <> [].
+  Hypothesis wire_b64 : forall k m, b64_decode (b64_encode (sig_wire (sign k m))) = Some (sig_wire (sign k m)).
 
   Lemma http_method_nonempty m m' : m <> [] -> http_method m = Some m' -> m' = m.
   Proof.
